@@ -169,12 +169,17 @@ for nbits in range(1, 65):
         zero = r.read_uint_or_none(nbits)
         assert zero == 0 and type(zero) is int and zero is not None
         assert r.read_uint_or_none(nbits) == top >> 1
-# wider than any table B field: the value is read, then no missing value is known for it
+# wider than 64 bits (206YYY, 204YYY): missing values are known up to 255 bits
 r = get_bit_reader(b'\xff' * 20)
-expect_error(IndexError, r.read_uint_or_none, 65)
-assert r.get_pos() == 65
+assert r.read_uint_or_none(65) is None and r.get_pos() == 65
 r = get_bit_reader(b'\x00' * 20)
-expect_error(IndexError, r.read_uint_or_none, 70)
+assert r.read_uint_or_none(70) == 0 and r.get_pos() == 70
+# wider than any operand can describe: the value is read, then no missing value is known for it
+r = get_bit_reader(b'\xff' * 40)
+expect_error(IndexError, r.read_uint_or_none, 256)
+assert r.get_pos() == 256
+r = get_bit_reader(b'\x00' * 40)
+expect_error(IndexError, r.read_uint_or_none, 300)
 # zero width: refused by bitstring itself
 r = get_bit_reader(b'\xff')
 expect_error(ValueError, r.read_uint_or_none, 0)
@@ -210,11 +215,18 @@ assert r.read_int(12) == -2047
 r = get_bit_reader(b'\x80')
 expect_error(BitReadError, r.read_int, 9)
 assert r.get_pos() == 1
+# a field of one bit (or less) is the sign bit alone: the magnitude is empty, the value zero
 r = get_bit_reader(b'\x80')
-expect_error(ValueError, r.read_int, 1)
-assert r.get_pos() == 1
+got = r.read_int(1)
+assert got == 0 and type(got) is int and r.get_pos() == 1
+r = get_bit_reader(b'\x00')
+got = r.read_int(1)
+assert got == 0 and type(got) is int and r.get_pos() == 1
 r = get_bit_reader(b'\x80')
-expect_error(ValueError, r.read_int, 0)
+got = r.read_int(0)
+assert got == 0 and type(got) is int and r.get_pos() == 1
+r = get_bit_reader(b'\x80')
+expect_error(TypeError, r.read_int, None)
 assert r.get_pos() == 1
 r = get_bit_reader(b'')
 expect_error(BitReadError, r.read_int, 4)
